@@ -47,6 +47,12 @@ var invalidTable = []Invalid{
 	{"size-string-response", "size_limit", "  - name: size_limit\n    config:\n      max_request_body: 1024\n      max_response_body: \"big\"\n", "must be a number, got string"},
 	{"size-zero-response", "size_limit", "  - name: size_limit\n    config:\n      max_response_body: 0\n", "must be positive"},
 	{"size-negative-response", "size_limit", "  - name: size_limit\n    config:\n      max_request_body: 1024\n      max_response_body: -52428800\n", "must be positive"},
+	// a limit that is written but has no value (templated value rendered empty, `~`, `null`): the option is present and is not a
+	// number; starting with the built-in default would silently drop the limit the operator meant to configure
+	{"size-null-request", "size_limit", "  - name: size_limit\n    config:\n      max_request_body: null\n", "must be a number, got null"},
+	{"size-empty-request", "size_limit", "  - name: size_limit\n    config:\n      max_request_body:\n      max_response_body: 1048576\n", "must be a number, got an empty value (YAML null)"},
+	{"size-tilde-response", "size_limit", "  - name: size_limit\n    config:\n      max_request_body: 1024\n      max_response_body: ~\n", "must be a number, got null"},
+	{"auth-null-key", "custom-auth", "  - name: custom-auth\n    config:\n      apiKey:\n", "apiKey must be a non-empty string (YAML null)"},
 	{"size-list-request", "size_limit", "  - name: size_limit\n    config:\n      max_request_body: [1024]\n", "must be a number, got list"},
 
 	// --- gzip (factory: "compression level must be between -1 and 9", "expected content_types to be a list of strings", "all content_types must be string")
